@@ -1,7 +1,637 @@
 package main
 
-// Counterexample replay against the real code (go test -overlay). Drivers are registered per function.
+// Counterexample replay against the real code.
+//
+// For a failed `ensures` / `on return` obligation with a model, the inputs of the function are read
+// off the model (type-directed walk over the parameters and the entry heap, values fetched from the
+// solver with get-value), a generic reflection harness (replay/harness.go.tmpl) builds them, calls the
+// REAL function through `go test -overlay` (nothing is written into the repository) and evaluates the
+// violated clause over the values before and after the call. Functions whose inputs cannot be built
+// from plain data (interfaces, maps, channels, function values) are not replayable this way; their
+// violations carry the model and end with no-failing-input-found.
 
-func tryReplay(prop string, o *Oblig, in *ObligInstance, path, verif string) bool {
-	return false
+import (
+	"bufio"
+	"encoding/json"
+	"fmt"
+	"go/constant"
+	"go/types"
+	"io"
+	"os"
+	"os/exec"
+	"path/filepath"
+	"strconv"
+	"strings"
+	"time"
+)
+
+// ReplayInfo is what a function verification leaves behind for the replay of its obligations.
+type ReplayInfo struct {
+	PkgName    string
+	PkgDir     string // relative to the repository root
+	Target     string // Go expression naming the function inside its package
+	ParamNames []string
+	ParamTypes []types.Type
+	ParamVals  []Val
+	Results    []string
+	Requires   []string
+	Specs      map[string]map[string]any
+	Consts     map[string]int64
+	Repo       string
+}
+
+func (x *Exec) replayInfo() *ReplayInfo {
+	fn := x.fn
+	if fn.Parent() != nil || fn.Pkg == nil {
+		return nil // closures are not callable from a test
+	}
+	ri := &ReplayInfo{PkgName: fn.Pkg.Pkg.Name(), Repo: x.P.repo, Specs: map[string]map[string]any{}, Consts: map[string]int64{}}
+	if len(fn.Pkg.Pkg.Path()) >= len(modPrefix) {
+		ri.PkgDir = strings.TrimPrefix(strings.TrimPrefix(fn.Pkg.Pkg.Path(), modPrefix), "/")
+	}
+	if ri.PkgDir == "" {
+		ri.PkgDir = "."
+	}
+	name := fn.Name()
+	if recv := fn.Signature.Recv(); recv != nil {
+		rt := types.TypeString(recv.Type(), func(p *types.Package) string { return "" })
+		ri.Target = "(" + rt + ")." + name
+	} else {
+		ri.Target = name
+	}
+	for _, p := range fn.Params {
+		ri.ParamNames = append(ri.ParamNames, p.Name())
+		ri.ParamTypes = append(ri.ParamTypes, p.Type())
+		ri.ParamVals = append(ri.ParamVals, x.params[p.Name()])
+	}
+	res := fn.Signature.Results()
+	for i := 0; i < res.Len(); i++ {
+		ri.Results = append(ri.Results, res.At(i).Name())
+	}
+	for _, r := range x.fc.Requires {
+		ri.Requires = append(ri.Requires, r.Src)
+	}
+	for n, sf := range x.P.C.Specs {
+		if sf.Body == nil {
+			continue
+		}
+		var ps []string
+		for _, p := range sf.Params {
+			ps = append(ps, p.Name)
+		}
+		ri.Specs[n] = map[string]any{"params": ps, "body": sf.Src}
+	}
+	sc := fn.Pkg.Pkg.Scope()
+	for _, n := range sc.Names() {
+		if c, ok := sc.Lookup(n).(*types.Const); ok && c.Val().Kind() == constant.Int {
+			if v, ok := constant.Int64Val(c.Val()); ok {
+				ri.Consts[n] = v
+			}
+		}
+	}
+	return ri
+}
+
+// ---- talking to the solver about one model -------------------------------------------------------
+
+type modelSession struct {
+	cmd    *exec.Cmd
+	in     io.WriteCloser
+	out    *bufio.Reader
+	script string
+}
+
+// openModel re-establishes the model with the solver that found it (falling back to the others).
+func openModel(scriptFile, solver string) (*modelSession, error) {
+	bins := []string{"z3-new", "/usr/bin/z3"}
+	if strings.HasPrefix(solver, "z3-4.8") {
+		bins = []string{"/usr/bin/z3", "z3-new"}
+	}
+	var last error
+	for _, bin := range bins {
+		m, err := openModelWith(scriptFile, bin)
+		if err == nil {
+			return m, nil
+		}
+		last = err
+	}
+	return nil, last
+}
+
+func openModelWith(scriptFile, bin string) (*modelSession, error) {
+	b, err := os.ReadFile(scriptFile)
+	if err != nil {
+		return nil, err
+	}
+	script := string(b)
+	if i := strings.LastIndex(script, "(check-sat)"); i >= 0 {
+		script = script[:i]
+	}
+	cmd := exec.Command(bin, "-in", "-smt2", "-t:20000")
+	in, _ := cmd.StdinPipe()
+	out, _ := cmd.StdoutPipe()
+	if err := cmd.Start(); err != nil {
+		return nil, err
+	}
+	m := &modelSession{cmd: cmd, in: in, out: bufio.NewReaderSize(out, 1<<16), script: script}
+	io.WriteString(in, script+"\n(check-sat)\n")
+	for {
+		line, err := m.out.ReadString('\n')
+		if err != nil {
+			m.close()
+			return nil, fmt.Errorf("solver ended: %v", err)
+		}
+		line = strings.TrimSpace(line)
+		if line == "sat" {
+			return m, nil
+		}
+		if line == "unsat" || line == "unknown" || line == "timeout" {
+			m.close()
+			return nil, fmt.Errorf("model not reproducible with z3-new (%s)", line)
+		}
+	}
+}
+
+func (m *modelSession) close() {
+	io.WriteString(m.in, "(exit)\n")
+	m.in.Close()
+	done := make(chan struct{})
+	go func() { m.cmd.Wait(); close(done) }()
+	select {
+	case <-done:
+	case <-time.After(2 * time.Second):
+		m.cmd.Process.Kill()
+	}
+}
+
+// get returns the model value of a term as SMT-LIB text.
+func (m *modelSession) get(term string) (string, error) {
+	io.WriteString(m.in, "(get-value ("+term+"))\n")
+	depth := 0
+	var b strings.Builder
+	started := false
+	for {
+		c, err := m.out.ReadByte()
+		if err != nil {
+			return "", err
+		}
+		if c == '"' {
+			// string literal: copy verbatim up to the closing quote ("" is an escaped quote)
+			b.WriteByte(c)
+			for {
+				d, err := m.out.ReadByte()
+				if err != nil {
+					return "", err
+				}
+				b.WriteByte(d)
+				if d == '"' {
+					if p, _ := m.out.Peek(1); len(p) == 1 && p[0] == '"' {
+						m.out.ReadByte()
+						b.WriteByte('"')
+						continue
+					}
+					break
+				}
+			}
+			continue
+		}
+		if c == '(' {
+			depth++
+			started = true
+		}
+		if started {
+			b.WriteByte(c)
+		}
+		if c == ')' {
+			depth--
+			if started && depth == 0 {
+				break
+			}
+		}
+	}
+	s := strings.TrimSpace(b.String())
+	if strings.HasPrefix(s, "(error") {
+		return "", fmt.Errorf("%s", s)
+	}
+	// ((term value)) -> value : strip the outer parens and the echoed term
+	s = strings.TrimSuffix(strings.TrimPrefix(s, "(("), "))")
+	t := strings.TrimSpace(term)
+	if strings.HasPrefix(s, t) {
+		return strings.TrimSpace(s[len(t):]), nil
+	}
+	// the solver may print the term differently: take the last s-expression
+	if i := strings.LastIndex(s, " "); i >= 0 && !strings.HasSuffix(s, ")") {
+		return strings.TrimSpace(s[i:]), nil
+	}
+	if strings.HasSuffix(s, ")") {
+		d := 0
+		for i := len(s) - 1; i >= 0; i-- {
+			if s[i] == ')' {
+				d++
+			} else if s[i] == '(' {
+				d--
+				if d == 0 {
+					return s[i:], nil
+				}
+			}
+		}
+	}
+	return s, nil
+}
+
+func (m *modelSession) declared(symbol string) bool {
+	return strings.Contains(m.script, "(declare-const "+symbol+" ") || strings.Contains(m.script, "(declare-fun "+symbol+" ") || strings.Contains(m.script, "(define-fun "+symbol+" ")
+}
+
+func parseSMTInt(s string) (int64, bool) {
+	s = strings.TrimSpace(s)
+	neg := false
+	if strings.HasPrefix(s, "(-") {
+		neg = true
+		s = strings.TrimSpace(strings.TrimSuffix(strings.TrimPrefix(s, "(-"), ")"))
+	}
+	n, err := strconv.ParseInt(s, 10, 64)
+	if err != nil {
+		return 0, false
+	}
+	if neg {
+		n = -n
+	}
+	return n, true
+}
+
+func parseSMTString(s string) (string, bool) {
+	s = strings.TrimSpace(s)
+	if len(s) < 2 || s[0] != '"' || s[len(s)-1] != '"' {
+		return "", false
+	}
+	body := strings.ReplaceAll(s[1:len(s)-1], `""`, `"`)
+	var b strings.Builder
+	for i := 0; i < len(body); i++ {
+		if strings.HasPrefix(body[i:], `\u{`) {
+			if j := strings.Index(body[i:], "}"); j > 0 {
+				if r, err := strconv.ParseInt(body[i+3:i+j], 16, 32); err == nil {
+					b.WriteRune(rune(r))
+					i += j
+					continue
+				}
+			}
+		}
+		b.WriteByte(body[i])
+	}
+	return b.String(), true
+}
+
+// ---- reading the inputs off the model ---------------------------------------------------------------
+
+type extractor struct {
+	m     *modelSession
+	objs  map[string]bool
+	nobj  int
+	fail  string
+	depth int
+}
+
+func (e *extractor) int(term string) (int64, bool) {
+	v, err := e.m.get(term)
+	if err != nil {
+		e.fail = "get-value: " + err.Error()
+		return 0, false
+	}
+	n, ok := parseSMTInt(v)
+	if !ok {
+		e.fail = "not an integer: " + v
+	}
+	return n, ok
+}
+
+// entryHeap returns the term of the entry version of a heap key, or "" if the function never read it.
+func (e *extractor) entryHeap(key string) string {
+	n := sym(key + "@g0")
+	if e.m.declared(n) {
+		return n
+	}
+	return ""
+}
+
+func (e *extractor) scalar(term string, t types.Type) (any, bool) {
+	if term == "" {
+		return nil, true // never read by the function: any value will do (the zero value)
+	}
+	switch scalarSort(t) {
+	case sBool:
+		v, err := e.m.get(term)
+		if err != nil {
+			e.fail = err.Error()
+			return nil, false
+		}
+		return strings.TrimSpace(v) == "true", true
+	case sStr:
+		v, err := e.m.get(term)
+		if err != nil {
+			e.fail = err.Error()
+			return nil, false
+		}
+		s, ok := parseSMTString(v)
+		if !ok {
+			e.fail = "not a string: " + v
+		}
+		return s, ok
+	case sInt:
+		if isTime(t) {
+			n, ok := e.int(term)
+			if !ok {
+				return nil, false
+			}
+			if n != 0 {
+				e.fail = "a non-zero time value cannot be built from the model"
+				return nil, false
+			}
+			return nil, true
+		}
+		n, ok := e.int(term)
+		if !ok {
+			return nil, false
+		}
+		return strconv.FormatInt(n, 10), true
+	}
+	e.fail = "unsupported scalar type " + typeName(t)
+	return nil, false
+}
+
+// value builds the JSON description of the value of type t whose leaves are given by leaf(suffix).
+func (e *extractor) value(t types.Type, leafTerm func(l leaf) string) (any, bool) {
+	if e.fail != "" {
+		return nil, false
+	}
+	e.depth++
+	defer func() { e.depth-- }()
+	if e.depth > 6 {
+		e.fail = "model too deep"
+		return nil, false
+	}
+	if isOpaqueStruct(t) {
+		return nil, true
+	}
+	ls := leavesOf(t)
+	if isTime(t) && len(ls) == 1 {
+		// instants are integers (nanoseconds) in the model
+		term := leafTerm(ls[0])
+		if term == "" {
+			return nil, true
+		}
+		n, ok := e.int(term)
+		if !ok {
+			return nil, false
+		}
+		if n == 0 {
+			return nil, true
+		}
+		return map[string]any{"unixnano": strconv.FormatInt(n, 10)}, true
+	}
+	switch u := under(t).(type) {
+	case *types.Basic:
+		return e.scalar(leafTerm(ls[0]), t)
+	case *types.Pointer:
+		if isTime(t) {
+			return e.scalar(leafTerm(ls[0]), t)
+		}
+		term := leafTerm(ls[0])
+		if term == "" {
+			return nil, true
+		}
+		r, ok := e.int(term)
+		if !ok {
+			return nil, false
+		}
+		if r == 0 {
+			return nil, true
+		}
+		ref := strconv.FormatInt(r, 10)
+		if e.objs[ref+"|"+typeName(t)] {
+			return map[string]any{"ref": ref}, true
+		}
+		e.objs[ref+"|"+typeName(t)] = true
+		e.nobj++
+		if e.nobj > 64 {
+			e.fail = "model too large"
+			return nil, false
+		}
+		stt, isStruct := structOf(u.Elem())
+		if !isStruct {
+			e.fail = "pointer to " + typeName(u.Elem()) + " cannot be built"
+			return nil, false
+		}
+		fields := map[string]any{}
+		for i := 0; i < stt.NumFields(); i++ {
+			f := stt.Field(i)
+			if _, nested := structOf(f.Type()); nested {
+				e.fail = "nested struct value " + f.Name()
+				return nil, false
+			}
+			fv, ok := e.value(f.Type(), func(l leaf) string {
+				h := e.entryHeap(fieldKey(u.Elem(), f.Name(), l.suffix))
+				if h == "" {
+					return ""
+				}
+				return "(select " + h + " " + term + ")"
+			})
+			if !ok {
+				return nil, false
+			}
+			if fv != nil {
+				fields[f.Name()] = fv
+			}
+		}
+		return map[string]any{"ref": ref, "fields": fields}, true
+	case *types.Slice:
+		arrT, offT, lenT, capT := leafTerm(ls[0]), leafTerm(ls[1]), leafTerm(ls[2]), leafTerm(ls[3])
+		if lenT == "" || arrT == "" {
+			return nil, true
+		}
+		arr, ok := e.int(arrT)
+		if !ok {
+			return nil, false
+		}
+		if arr == 0 {
+			return map[string]any{"nil": true}, true
+		}
+		n, ok := e.int(lenT)
+		if !ok {
+			return nil, false
+		}
+		cp, _ := e.int(capT)
+		off, _ := e.int(offT)
+		if n < 0 || n > 24 {
+			e.fail = fmt.Sprintf("slice of length %d in the model", n)
+			return nil, false
+		}
+		if cp > n+8 {
+			cp = n + 8
+		}
+		if _, isStruct := structOf(u.Elem()); isStruct {
+			e.fail = "slice of struct values"
+			return nil, false
+		}
+		elems := []any{}
+		for i := int64(0); i < n; i++ {
+			ev, ok := e.value(u.Elem(), func(l leaf) string {
+				h := e.entryHeap(elemKey(u.Elem(), l.suffix))
+				if h == "" {
+					return ""
+				}
+				return fmt.Sprintf("(select (select %s %s) %d)", h, arrT, off+i)
+			})
+			if !ok {
+				return nil, false
+			}
+			elems = append(elems, ev)
+		}
+		return map[string]any{"elems": elems, "cap": cp}, true
+	case *types.Interface:
+		tagT := leafTerm(ls[0])
+		if tagT == "" {
+			return nil, true
+		}
+		tag, ok := e.int(tagT)
+		if !ok {
+			return nil, false
+		}
+		if tag != 0 {
+			e.fail = "a non-nil interface value (" + typeName(t) + ") needs a fixture"
+			return nil, false
+		}
+		return nil, true
+	case *types.Map, *types.Chan, *types.Signature:
+		term := leafTerm(ls[0])
+		if term == "" {
+			return nil, true
+		}
+		r, ok := e.int(term)
+		if !ok {
+			return nil, false
+		}
+		if r != 0 {
+			e.fail = "a non-nil " + typeName(t) + " needs a fixture"
+			return nil, false
+		}
+		return nil, true
+	}
+	e.fail = "unsupported type " + typeName(t)
+	return nil, false
+}
+
+func (e *extractor) param(v Val, t types.Type) (any, bool) {
+	terms := map[string]string{}
+	switch v.K {
+	case KScalar:
+		terms[""] = v.T.S
+		terms["^"] = v.T.S
+	case KPtr:
+		if v.P.Kind != PObj {
+			e.fail = "parameter is not a plain pointer"
+			return nil, false
+		}
+		terms["^"] = v.P.Base.S
+	case KSlice:
+		terms["#arr^"], terms["#off"], terms["#len"], terms["#cap"] = v.Fs[0].T.S, v.Fs[1].T.S, v.Fs[2].T.S, v.Fs[3].T.S
+	case KIface:
+		terms["#tag"], terms["#val"] = v.Fs[0].T.S, v.Fs[1].T.S
+	default:
+		e.fail = "unsupported parameter value"
+		return nil, false
+	}
+	return e.value(t, func(l leaf) string { return terms[l.suffix] })
+}
+
+// ---- running the replay ----------------------------------------------------------------------------
+
+// tryReplay returns true if the counterexample was confirmed on the real code; details go into doc.
+func tryReplay(prop string, o *Oblig, in *ObligInstance, path, verif string, ri *ReplayInfo, doc map[string]any) bool {
+	note := func(s string) bool {
+		doc["replay_note"] = s
+		return false
+	}
+	if ri == nil {
+		return note("not replayable: closures and functions without a package cannot be called from a test")
+	}
+	if o.Kind != "ensures" && o.Kind != "on-return" {
+		return note("not replayable: only clauses over the state at return are evaluated on the real code (" + o.Kind + ")")
+	}
+	if in == nil || in.File == "" {
+		return note("no solver script")
+	}
+	hasSat := in.Result == "failed"
+	if !hasSat {
+		return note("the solver gave no model (" + in.Result + ")")
+	}
+	for _, w := range []string{"called(", "lastret(", "lastarg(", "ncalls(", "went(", "stored(", "exclusive(", "heldsince(", "fresh(", "typeis(", "as(", "has(", "hassuffix(", "hasprefix(", "contains(", "samearray(", "entry(", "athead("} {
+		if strings.Contains(o.Clause, w) {
+			return note("not replayable: the clause speaks about events or abstractions (" + strings.TrimSuffix(w, "(") + ") that only exist in the verifier")
+		}
+	}
+	m, err := openModel(in.File, in.Solver)
+	if err != nil {
+		return note("model: " + err.Error())
+	}
+	defer m.close()
+	ex := &extractor{m: m, objs: map[string]bool{}}
+	var inputs []any
+	for i, v := range ri.ParamVals {
+		jv, ok := ex.param(v, ri.ParamTypes[i])
+		if !ok {
+			return note("inputs cannot be built from the model: " + ex.fail)
+		}
+		inputs = append(inputs, jv)
+	}
+	clause := o.Clause
+	if i := strings.Index(clause, "   ["); i >= 0 {
+		clause = clause[:i]
+	}
+	model := map[string]any{"params": ri.ParamNames, "results": ri.Results, "inputs": inputs, "clause": clause,
+		"requires": ri.Requires, "specs": ri.Specs, "consts": ri.Consts}
+	mj, _ := json.Marshal(model)
+	doc["replay_inputs"] = inputs
+	tmpl, err := os.ReadFile(filepath.Join(verif, "replay", "harness.go.tmpl"))
+	if err != nil {
+		return note("harness: " + err.Error())
+	}
+	src := strings.NewReplacer("@PKG@", ri.PkgName, "@TARGET@", ri.Target, "@MODEL@", strconv.Quote(string(mj))).Replace(string(tmpl))
+	tmp, err := os.MkdirTemp("", "govc-replay.")
+	if err != nil {
+		return note(err.Error())
+	}
+	defer os.RemoveAll(tmp)
+	testFile := filepath.Join(tmp, "zz_verif_replay_test.go")
+	os.WriteFile(testFile, []byte(src), 0o644)
+	ov := map[string]any{"Replace": map[string]string{filepath.Join(ri.Repo, ri.PkgDir, "zz_verif_replay_test.go"): testFile}}
+	ovb, _ := json.Marshal(ov)
+	ovFile := filepath.Join(tmp, "ov.json")
+	os.WriteFile(ovFile, ovb, 0o644)
+	cmd := exec.Command("go", "test", "-overlay", ovFile, "-vet=off", "-count=1", "-v", "-timeout", "60s", "-run", "^TestGovcReplay$", "./"+ri.PkgDir)
+	cmd.Dir = ri.Repo
+	out, _ := cmd.CombinedOutput()
+	text := string(out)
+	var lines []string
+	for _, l := range strings.Split(text, "\n") {
+		if strings.Contains(l, "GOVC-REPLAY") {
+			lines = append(lines, strings.TrimSpace(l))
+		}
+	}
+	if len(lines) == 0 {
+		if len(text) > 1500 {
+			text = text[:1500]
+		}
+		return note("the replay test did not run: " + text)
+	}
+	doc["replay_output"] = strings.Join(lines, "\n")
+	doc["replay_cmd"] = "go test -overlay <generated harness> -run TestGovcReplay ./" + ri.PkgDir
+	for _, l := range lines {
+		if strings.HasPrefix(l, "GOVC-REPLAY violated") || strings.HasPrefix(l, "GOVC-REPLAY panic") {
+			doc["replayed"] = true
+			os.WriteFile(strings.TrimSuffix(path, ".json")+"_replay_test.go.txt", []byte(src), 0o644)
+			return true
+		}
+	}
+	return note("the model did not reproduce on the real code (it lives in an abstraction of the verifier)")
 }
